@@ -215,7 +215,7 @@ func walksFrom(K int, window string, data int, anyStart bool) {
 					crosses = true
 				}
 			}
-			if wnd > 0 {
+			if wnd == 1 { // with a window of 2 the tree (depth 2) has no irreversible block above genesis
 				vrt.Cover("walk-refused-at-irreversible-height", err != nil)
 			}
 			vrt.Assert((err != nil) == crosses, "walk-refused-iff-it-would-undo-an-irreversible-block")
